@@ -8,6 +8,7 @@
 -/
 import Influx.Lemmas.Check
 import Influx.Lemmas.CheckConc
+import Influx.Lemmas.CheckLin
 
 namespace Influx.Props.C33
 open Influx.CheckM Influx.Spec.C33
@@ -410,4 +411,129 @@ theorem respond_spec (got : List Res) :
     unfold failingChecks
     rw [filter_fail_eq]
     exact (sortRes_perm _).filter _
+/-! ### the concurrent statement checker accepts every linearizable history -/
+
+/-- the request `r` read `v` from gate `g`: `v` is the value of the write to `g` with the
+    latest linearization point before the request's read point for `g` -/
+def ReadsVal (init : List (String × Bool)) (h : List HOp) (pt : String → W → Nat) (ρ : Nat)
+    (g : String) (v : Bool) : Prop :=
+  ∃ w ∈ writesOf init h g, w.val = v ∧ pt g w < ρ ∧
+    ∀ w' ∈ writesOf init h g, pt g w' < ρ → pt g w' ≤ pt g w
+
+/-- A history is *linearizable* for the gate / request specification: every write
+    (initial value, registration, signal) takes effect at one point inside its interval;
+    every request takes its snapshot at one point inside its interval and reads every gate
+    of the snapshot at one point inside its interval; a gate is in the snapshot iff its
+    registration point precedes the snapshot point; the value read is that of the latest
+    write before the read point; the answer lists exactly the snapshotted gates read as
+    not ready (sorted), with code 200 iff there is none. -/
+structure Linearizable (init : List (String × Bool)) (h : List HOp) : Prop where
+  lin : ∃ (pt : String → W → Nat) (regPt : String → Nat) (snap : HOp → Nat) (rpt : HOp → String → Nat),
+    (∀ g, ∀ w ∈ writesOf init h g, w.inv ≤ pt g w ∧ pt g w ≤ w.res) ∧
+    (∀ g ri rr, regOf init h g = some (ri, rr) → ri ≤ regPt g ∧ regPt g ≤ rr) ∧
+    (∀ r ∈ h, r.kind = .ready →
+      r.inv ≤ snap r ∧ snap r ≤ r.res ∧
+      ((r.code = 200 ∧ r.failing = []) ∨ (r.code = 503 ∧ r.failing ≠ [])) ∧
+      strictlySorted r.failing = true ∧ (∀ g ∈ r.failing, g ∈ gateNames init h) ∧
+      ∀ g ∈ gateNames init h, r.inv ≤ rpt r g ∧ rpt r g ≤ r.res ∧
+        (g ∈ r.failing → regPt g < snap r ∧ ReadsVal init h pt (rpt r g) g false) ∧
+        (g ∉ r.failing → regPt g < snap r → ReadsVal init h pt (rpt r g) g true))
+
+theorem mayBe_of_reads (init : List (String × Bool)) (h : List HOp) (pt : String → W → Nat)
+    (hpt : ∀ g, ∀ w ∈ writesOf init h g, w.inv ≤ pt g w ∧ pt g w ≤ w.res)
+    (g : String) (v : Bool) (rinv rres ρ : Nat) (h1 : rinv ≤ ρ) (h2 : ρ ≤ rres)
+    (hr : ReadsVal init h pt ρ g v) : mayBe (writesOf init h g) rinv rres v = true := by
+  obtain ⟨w, hw, hv, hp, hlast⟩ := hr
+  refine mayBe_of _ _ _ _ w hw hv ?_ ?_
+  · have := (hpt g w hw).1; omega
+  · intro w' hw' hres hlt
+    have a1 := (hpt g w' hw').2
+    have a2 := (hpt g w' hw').1
+    have a3 := (hpt g w hw).2
+    have := hlast w' hw' (by omega)
+    omega
+
+/-- **soundness of the concurrent statement checker**: it accepts every linearizable
+    history — so a `interval-semantics-violated` verdict on a real history means the
+    handler's answers cannot be explained by any choice of instants inside the
+    operations' intervals. -/
+theorem C33_oracle_sound (init : List (String × Bool)) (h : List HOp) (hl : Linearizable init h) :
+    holdsOnConc init h = true := by
+  obtain ⟨pt, regPt, snap, rpt, hpt, hreg, hreq⟩ := hl.lin
+  unfold holdsOnConc
+  rw [List.all_eq_true]
+  intro r hr
+  cases hk : r.kind with
+  | reg n => rfl
+  | sig n b => rfl
+  | ready =>
+    obtain ⟨s1, s2, hcode, hsorted, hknown, hgates⟩ := hreq r hr hk
+    simp only
+    unfold readyOpOK
+    simp only [Bool.and_eq_true, List.all_eq_true]
+    refine ⟨⟨⟨?_, hsorted⟩, ?_⟩, ?_⟩
+    · rcases hcode with ⟨c, f⟩ | ⟨c, f⟩
+      · simp [c, f]
+      · have : r.failing.isEmpty = false := by cases hf : r.failing <;> simp_all
+        simp [c, this]
+    · intro g hg
+      simpa using hknown g hg
+    · intro g hg
+      obtain ⟨q1, q2, qf, qt⟩ := hgates g hg
+      cases hro : regOf init h g with
+      | none => rfl
+      | some p =>
+        obtain ⟨ri, rr⟩ := p
+        obtain ⟨g1, g2⟩ := hreg g ri rr hro
+        simp only
+        by_cases hc : r.failing.contains g = true
+        · have hmem : g ∈ r.failing := by simpa using hc
+          obtain ⟨hs, hv⟩ := qf hmem
+          rw [if_pos hc]
+          simp only [Bool.and_eq_true, Bool.not_eq_true', decide_eq_false_iff_not]
+          exact ⟨by omega, mayBe_of_reads init h pt hpt g false r.inv r.res _ q1 q2 hv⟩
+        · have hmem : g ∉ r.failing := by simpa using hc
+          rw [if_neg hc]
+          simp only [Bool.or_eq_true, Bool.not_eq_true', decide_eq_false_iff_not]
+          by_cases hlt : rr < r.inv
+          · right
+            exact mayBe_of_reads init h pt hpt g true r.inv r.res _ q1 q2 (qt hmem (by omega))
+          · left; exact hlt
+/-- non-vacuity: a history in which gate `a` is signaled ready and a later request
+    answers 200 is linearizable (points = invocation stamps) -/
+example : Linearizable [("a", false)]
+    [⟨.sig "a" true, 1, 2, 0, []⟩, ⟨.ready, 3, 4, 200, []⟩] := by
+  refine ⟨fun _ w => w.inv, fun _ => 0, fun r => r.inv, fun r _ => r.inv, ?_, ?_, ?_⟩
+  · intro g w hw
+    simp only [writesOf, List.filter_cons, List.filter_nil, List.filterMap_cons, List.filterMap_nil] at hw
+    by_cases hg : g = "a"
+    · subst hg
+      simp at hw
+      rcases hw with rfl | rfl <;> simp
+    · have : ("a" == g) = false := by simp [Ne.symm hg]
+      simp [this] at hw
+  · intro g ri rr hro
+    simp only [regOf] at hro
+    by_cases hg : g = "a"
+    · subst hg; simp at hro; obtain ⟨rfl, rfl⟩ := hro; simp
+    · have : ("a" == g) = false := by simp [Ne.symm hg]
+      have e1 : (HKind.sig "a" true == HKind.reg g) = false := by
+        apply beq_eq_false_iff_ne.2; intro h; cases h
+      have e2 : (HKind.ready == HKind.reg g) = false := by
+        apply beq_eq_false_iff_ne.2; intro h; cases h
+      simp [this, List.find?, e1, e2] at hro
+  · intro r hr hk
+    simp only [List.mem_cons, List.not_mem_nil, or_false] at hr
+    rcases hr with rfl | rfl
+    · simp at hk
+    · refine ⟨Nat.le_refl _, by simp, Or.inl ⟨rfl, rfl⟩, rfl, by simp, ?_⟩
+      intro g hg
+      simp [gateNames] at hg
+      subst hg
+      refine ⟨Nat.le_refl _, by simp, by simp, ?_⟩
+      intro _ _
+      refine ⟨⟨1, 2, true⟩, by simp [writesOf], rfl, by simp, ?_⟩
+      intro w' hw'
+      simp [writesOf] at hw'
+      rcases hw' with rfl | rfl <;> simp
 end Influx.Props.C33
